@@ -78,8 +78,9 @@ const IMPLEMENTED: [&str; 1] = ["b64"];
 
 type Entry = (Option<Hdr>, Option<Hdr>);
 
+static KEY: once_cell::sync::Lazy<identity_jose::jwk::Jwk> = once_cell::sync::Lazy::new(|| EdKey::new(1).public);
 fn jwk_json() -> String {
-  serde_json::to_string(&EdKey::new(1).public).expect("jwk json")
+  serde_json::to_string(&*KEY).expect("jwk json")
 }
 
 /// Member (name, value text) list of a header in the canonical order.
@@ -110,7 +111,26 @@ fn members(h: &Hdr) -> Vec<(&'static str, String)> {
   m
 }
 fn names(h: &Hdr) -> BTreeSet<&'static str> {
-  members(h).into_iter().map(|(n, _)| n).collect()
+  let mut s = BTreeSet::new();
+  if h.alg {
+    s.insert("alg");
+  }
+  if h.b64 != 0 {
+    s.insert("b64");
+  }
+  if CRIT[h.crit as usize].is_some() {
+    s.insert("crit");
+  }
+  if h.kid {
+    s.insert("kid");
+  }
+  if h.x {
+    s.insert("x");
+  }
+  if let Some(r) = h.reg {
+    s.insert(REG[r as usize].0);
+  }
+  s
 }
 /// Hand-assembled JSON text of a header.
 fn json_text(h: &Hdr, rev: bool) -> String {
@@ -148,7 +168,7 @@ fn typed(h: &Hdr) -> JwsHeader {
     let s = || serde_json::from_str::<String>(v).expect("reg string");
     match n {
       "jku" => t.set_jku(Url::parse(s()).expect("url")),
-      "jwk" => t.set_jwk(EdKey::new(1).public),
+      "jwk" => t.set_jwk(KEY.clone()),
       "x5u" => t.set_x5u(Url::parse(s()).expect("url")),
       "x5c" => t.set_x5c(serde_json::from_str::<Vec<String>>(v).expect("x5c")),
       "x5t" => t.set_x5t(s()),
@@ -315,8 +335,7 @@ fn observe_item(r: Result<JwsValidationItem<'_>, Error>) -> ItemObs {
   match r {
     Err(e) => ItemObs::Err(err_label(&e), non_policy(&e)),
     Ok(item) => {
-      let key = EdKey::new(1).public;
-      match guard(|| item.verify(&AlwaysOk, &key)) {
+      match guard(|| item.verify(&AlwaysOk, &KEY)) {
         Err(p) => ItemObs::Panic(format!("JwsValidationItem::verify|{}", p.key()), p.msg),
         Ok(Ok(_)) => ItemObs::Ok { verified: true, verify_err: String::new() },
         Ok(Err(e)) => ItemObs::Ok { verified: false, verify_err: err_label(&e) },
@@ -771,11 +790,24 @@ fn generate(ctx: &Ctx) {
   // ---- general decoder, ordered pairs and triples of signature entries
   {
     let lefts: &[Entry] = if ctx.quick() { &reduced } else { &both };
+    // thorough: the whole table on one side, every valid entry of the reduced table + the invalid b64 spellings on the other
+    let rights: Vec<Entry> = if ctx.quick() {
+      reduced.clone()
+    } else {
+      let mut r: Vec<Entry> = reduced.iter().filter(|e| rules(e.0.as_ref(), e.1.as_ref()).is_empty()).cloned().collect();
+      for e in small_entries() {
+        if !r.contains(&e) {
+          r.push(e);
+        }
+      }
+      r
+    };
+    let reduced_pairs = &rights;
     let n = std::sync::atomic::AtomicU64::new(0);
     lefts.par_iter().for_each(|a| {
       let mut acc = Acc::default();
       let mut k = 0;
-      for b in &reduced {
+      for b in reduced_pairs {
         eval_into(ctx, &mut acc, &Case::DecGeneral { sigs: vec![a.clone(), b.clone()], detached: false });
         k += 1;
         if ctx.thorough() {
@@ -783,15 +815,22 @@ fn generate(ctx: &Ctx) {
           k += 1;
         }
       }
+      if ctx.thorough() {
+        // (whole table) x (whole reduced table), one order
+        for b in reduced.iter().filter(|b| !reduced_pairs.contains(b)) {
+          eval_into(ctx, &mut acc, &Case::DecGeneral { sigs: vec![a.clone(), b.clone()], detached: false });
+          k += 1;
+        }
+      }
       acc.flush(ctx);
       n.fetch_add(k, std::sync::atomic::Ordering::Relaxed);
     });
     let n = n.into_inner();
-    ctx.sample("decode_general pairs", &Case::DecGeneral { sigs: vec![lefts[lefts.len() / 2].clone(), reduced[reduced.len() / 2].clone()], detached: false });
+    ctx.sample("decode_general pairs", &Case::DecGeneral { sigs: vec![lefts[lefts.len() / 2].clone(), rights[rights.len() / 2].clone()], detached: false });
     ctx.add_states(n);
     ctx.add_transitions(n);
     ctx.add_traces(n);
-    ctx.part("Decoder::decode_general_serialization ordered pairs of signature entries", json!({"engine":"E1 full product","rows": n, "left": lefts.len(), "right": reduced.len(), "both_orders": ctx.thorough()}));
+    ctx.part("Decoder::decode_general_serialization ordered pairs of signature entries", json!({"engine":"E1 full product","rows": n, "left": lefts.len(), "right_both_orders": rights.len(), "right_one_order": if ctx.thorough() { reduced.len() } else { 0 }, "both_orders": ctx.thorough()}));
     // triples over the b64 spellings
     let small: Vec<Entry> = small_entries();
     let mut cases = Vec::new();
